@@ -187,10 +187,12 @@ AMB = "same_ambient_but_dl(*old(w), *final(w))"
 AMB_BUT_GRAPH = "same_ambient_but_dl_graph(*old(w), *final(w))"
 SPECS["actor_ref.rs::ActorRef::tell"] = dict(ret="result", ensures=[
     C("tell.relation", "C01 C02 C09 C13", "r_tell::<M>(self.hv(), msg_id(msg), old(w).log(), final(w).log(), result, \"tell\"@)"),
+    C("tell.dead_letters", "C13", "r_dl::<M>(self.id, old(w).log(), final(w).log(), dl_reason_tell(result), \"tell\"@)"),
     C("tell.frame", "C12", AMB),
 ])
 SPECS["actor_ref.rs::ActorRef::tell_with_timeout"] = dict(ret="result", ensures=[
     C("tell_with_timeout.relation", "C01 C10 C13", "r_tell_timeout::<M>(self.hv(), msg_id(msg), timeout, old(w).log(), final(w).log(), result, \"tell\"@)"),
+    C("tell_with_timeout.dead_letters", "C13", "r_dl::<M>(self.id, old(w).log(), final(w).log(), dl_reason_tell(result), \"tell\"@)"),
     C("tell_with_timeout.frame", "C12", AMB),
 ])
 SPECS["actor_ref.rs::ActorRef::kill"] = dict(ret="result", ensures=[
@@ -206,6 +208,7 @@ SPECS["actor_ref.rs::ActorRef::is_alive"] = dict(ret="result", ensures=[
 ])
 SPECS["actor_ref.rs::ActorRef::blocking_tell_no_timeout"] = dict(ret="result", ensures=[
     C("blocking_tell_no_timeout.relation", "C17 C02 C13", "r_tell::<M>(self.hv(), msg_id(msg), old(w).log(), final(w).log(), result, \"blocking_tell\"@)"),
+    C("blocking_tell_no_timeout.dead_letters", "C13", "r_dl::<M>(self.id, old(w).log(), final(w).log(), dl_reason_tell(result), \"blocking_tell\"@)"),
     C("blocking_tell_no_timeout.frame", "C12", AMB),
 ])
 SPECS["actor_ref.rs::ActorRef::blocking_tell"] = dict(ret="result", ensures=[
@@ -226,6 +229,7 @@ def _ask_t(features):
     return dict(ret="result", requires=ASK_PRE, ensures=[
         C("ask_with_timeout.relation", "C01 C03 C10 C13 C15",
           "r_ask_timeout::<M, T::Reply>(self.hv(), msg_id(msg), timeout, *old(w), *final(w), result, \"ask\"@)"),
+        C("ask_with_timeout.dead_letters", "C13", "r_dl::<M>(self.id, old(w).log(), final(w).log(), dl_reason_ask::<T::Reply>(result), \"ask\"@)"),
         C("ask_with_timeout.frame", "C12", AMB_BUT_GRAPH if "deadlock-detection" in features else AMB),
     ])
 
@@ -234,6 +238,7 @@ def _ask(features):
     rel = "r_ask::<M, T::Reply>(self.hv(), msg_id(msg), *old(w), *final(w), result, \"ask\"@)"
     d = dict(ret="result", ensures=[
         C("ask.relation", "C01 C02 C03 C13 C14 C15", rel),
+        C("ask.dead_letters", "C13", "r_dl::<M>(self.id, old(w).log(), final(w).log(), dl_reason_ask::<T::Reply>(result), \"ask\"@)"),
         C("ask.frame", "C12", AMB_BUT_GRAPH if "deadlock-detection" in features else AMB),
     ])
     d["requires"] = ASK_PRE
@@ -254,6 +259,7 @@ SPECS["actor_ref.rs::ActorRef::ask_with_timeout"] = _ask_t
 SPECS["actor_ref.rs::ActorRef::blocking_ask_no_timeout"] = dict(ret="result", ensures=[
     C("blocking_ask_no_timeout.relation", "C17 C02 C03 C13",
       "r_ask_core::<M, T::Reply>(self.hv(), msg_id(msg), old(w).log(), final(w).log(), result, \"blocking_ask\"@)"),
+    C("blocking_ask_no_timeout.dead_letters", "C13", "r_dl::<M>(self.id, old(w).log(), final(w).log(), dl_reason_ask::<T::Reply>(result), \"blocking_ask\"@)"),
     C("blocking_ask_no_timeout.frame", "C12", AMB),
 ])
 SPECS["actor_ref.rs::ActorRef::blocking_ask"] = dict(ret="result", ensures=[
@@ -331,17 +337,17 @@ SPECS["lib.rs::spawn"] = dict(
 # ------------------------------------------------------------------ type-erased handles (C16): the SAME named relations
 def _erased():
     T = "self.target()"
-    tell = [C("erased.tell.same_relation_as_inherent", "C16 C01 C02", "r_tell::<M>(%s, msg_id(msg), old(w).log(), final(w).log(), r, \"tell\"@)" % T)]
-    tellt = [C("erased.tell_with_timeout.same_relation_as_inherent", "C16 C10", "r_tell_timeout::<M>(%s, msg_id(msg), timeout, old(w).log(), final(w).log(), r, \"tell\"@)" % T)]
+    tell = [C("erased.tell.same_relation_as_inherent", "C16", "r_tell::<M>(%s, msg_id(msg), old(w).log(), final(w).log(), r, \"tell\"@)" % T)]
+    tellt = [C("erased.tell_with_timeout.same_relation_as_inherent", "C16", "r_tell_timeout::<M>(%s, msg_id(msg), timeout, old(w).log(), final(w).log(), r, \"tell\"@)" % T)]
     btell = [
-        C("erased.blocking_tell.none_same_relation", "C16 C17", "timeout is None ==> r_tell::<M>(%s, msg_id(msg), old(w).log(), final(w).log(), r, \"blocking_tell\"@)" % T),
-        C("erased.blocking_tell.some_keeps_its_timeout", "C16 C17 C10",
+        C("erased.blocking_tell.none_same_relation", "C16", "timeout is None ==> r_tell::<M>(%s, msg_id(msg), old(w).log(), final(w).log(), r, \"blocking_tell\"@)" % T),
+        C("erased.blocking_tell.some_keeps_its_timeout", "C16",
           "timeout matches Some(d) ==> final(w).log() =~= old(w).log().push(Eff::Opaque(OpaqueTag::BlockingTellTimeout { pid: msg_id(msg), d: d, chan: %s.mbx }))" % T)]
-    ask = [C("erased.ask.same_relation_as_inherent", "C16 C03 C14", "r_ask::<M, R>(%s, msg_id(msg), *old(w), *final(w), r, \"ask\"@)" % T)]
-    askt = [C("erased.ask_with_timeout.same_relation_as_inherent", "C16 C10 C14", "r_ask_timeout::<M, R>(%s, msg_id(msg), timeout, *old(w), *final(w), r, \"ask\"@)" % T)]
+    ask = [C("erased.ask.same_relation_as_inherent", "C16", "r_ask::<M, R>(%s, msg_id(msg), *old(w), *final(w), r, \"ask\"@)" % T)]
+    askt = [C("erased.ask_with_timeout.same_relation_as_inherent", "C16", "r_ask_timeout::<M, R>(%s, msg_id(msg), timeout, *old(w), *final(w), r, \"ask\"@)" % T)]
     bask = [
-        C("erased.blocking_ask.none_same_relation", "C16 C17", "timeout is None ==> r_ask_core::<M, R>(%s, msg_id(msg), old(w).log(), final(w).log(), r, \"blocking_ask\"@)" % T),
-        C("erased.blocking_ask.some_keeps_its_timeout", "C16 C17 C10",
+        C("erased.blocking_ask.none_same_relation", "C16", "timeout is None ==> r_ask_core::<M, R>(%s, msg_id(msg), old(w).log(), final(w).log(), r, \"blocking_ask\"@)" % T),
+        C("erased.blocking_ask.some_keeps_its_timeout", "C16",
           "timeout matches Some(d) ==> final(w).log() =~= old(w).log().push(Eff::Opaque(OpaqueTag::BlockingAskTimeout { pid: msg_id(msg), d: d, chan: %s.mbx }))" % T)]
     same = lambda lab: [C(lab, "C16 C11", "r.target() == self.target()")]
     S = {}
@@ -358,7 +364,7 @@ def _erased():
     S["actor_control.rs::ActorControl::identity"] = dict(pure=True, ensures=[C("erased.control.identity.same", "C16 C11", "r == self.target().id")])
     S["actor_control.rs::ActorControl::is_alive"] = dict(ensures=[C("erased.control.is_alive.same_relation", "C16 C11", "r_is_alive(%s, old(w).log(), final(w).log(), r)" % T)])
     S["actor_control.rs::ActorControl::stop"] = dict(ensures=[C("erased.control.stop.same_relation", "C16 C07", "r_stop(%s, old(w).log(), final(w).log(), r)" % T)])
-    S["actor_control.rs::ActorControl::kill"] = dict(ensures=[C("erased.control.kill.same_relation", "C16 C06", "r_kill(%s, old(w).log(), final(w).log(), r)" % T)])
+    S["actor_control.rs::ActorControl::kill"] = dict(ensures=[C("erased.control.kill.same_relation", "C16", "r_kill(%s, old(w).log(), final(w).log(), r)" % T)])
     S["actor_control.rs::WeakActorControl::identity"] = dict(pure=True, ensures=[C("erased.weak_control.identity.same", "C16 C11", "r == self.target().id")])
     S["actor_control.rs::WeakActorControl::is_alive"] = dict(ensures=[C("erased.weak_control.is_alive.same_relation", "C16 C11", "r_weak_alive(%s, old(w).log(), final(w).log(), r)" % T)])
     # impl methods that stay in the trait: contract inherited from the declaration (pure flags must agree)
